@@ -254,6 +254,11 @@ Section Spelling.
     { inversion H as [|a a' r r' Ha Hr]; subst; [reflexivity|].
       inversion Hr as [|b b' r2 r2' Hb Hr2]; subst; [reflexivity|]. inversion Hr2; subst; [|reflexivity].
       rewrite (as_str_sim' _ _ Ha), (as_str_sim' _ _ Hb). reflexivity. }
+    destruct (ustr_eqb name name_typeof).
+    { inversion H as [|a a' r r' Ha Hr]; subst; [reflexivity|]. inversion Hr; subst; [|reflexivity].
+      inversion Ha as [ns ns' Hn | | | ]; subst; try reflexivity. cbn [as_nodes].
+      inversion Hn as [|n n' l l' Hnn Hl]; subst; [reflexivity|].
+      inversion Hl; subst; [destruct Hnn as [-> _]|]; reflexivity. }
     reflexivity.
   Qed.
 
